@@ -92,13 +92,8 @@ def socDelete (F : TFacts) (cfg : CbConfig) (a : J) : Prog Unit := do
 
 def socLike (F : TFacts) (cfg : CbConfig) (outbox : Iri) (a : J) : Prog Unit := do
   let op ← requireObject F a
-  Op.lock outbox
-  let r ← Prog.try_ (Op.actorForOutbox outbox)
-  Op.unlock outbox
-  match r with
-  | .error e => Prog.fail e
-  | .ok actorIRI =>
-    withLock actorIRI (do
+  let actorIRI ← Op.locked outbox (Op.actorForOutbox outbox)
+  withLock actorIRI (do
       let liked ← Op.liked actorIRI
       let ids ← idsM F op
       let items := (rawList liked "items").getD []
